@@ -15,3 +15,9 @@ import TLX.Props.Translated.Frames
 import TLX.Props.Translated.Checksum
 import TLX.Props.Translated.Suites
 import TLX.Props.Translated.QuicDissect2
+import TLX.Props.Translated.TlsSess2
+import TLX.Props.Translated.Reasm2
+import TLX.Props.Translated.KeySched
+import TLX.Props.Translated.Builders
+import TLX.Props.Translated.Decrypt
+import TLX.Props.Translated.QuicTls
